@@ -15,6 +15,16 @@ Theorem C12_gen_backoff_facts :
 Proof. exact (conj G_init_delay (conj G_max_delay (conj G_retry_next G_arms_before_update))). Qed.
 Print Assumptions C12_gen_backoff_facts.
 
+(* the guards of the four anchored decisions (connect only if connect_, re-arm only if connect_, hand over only if connect_,
+   reconnect iff retry_ && connect_), translated from the current source, are the tests the model makes *)
+Theorem C12_gen_guards :
+  (forall s, startInLoop s = startInLoop_src s) /\
+  (forall s i, retry s i = retry_src s i) /\
+  (forall s e b, handleWrite s e b = handleWrite_src s e b) /\
+  (forall s c, removeConnection s c = removeConnection_src s c).
+Proof. exact G_guards. Qed.
+Print Assumptions C12_gen_guards.
+
 Theorem C12_connect_classify :
   map classify [0; EINPROGRESS; EINTR; EISCONN] = [ActConnecting; ActConnecting; ActConnecting; ActConnecting] /\
   map classify [EAGAIN; EADDRINUSE; EADDRNOTAVAIL; ECONNREFUSED; ENETUNREACH] = [ActRetry; ActRetry; ActRetry; ActRetry; ActRetry] /\
@@ -38,6 +48,12 @@ Theorem C12_socket_hygiene_quiescent : forall l s ev, run init l = Some (s, ev) 
   forall i x, nth_error (socks s) i = Some x -> x = HandedOver \/ x = HandedClosed 1 \/ x = Closed 1.
 Proof. exact hygiene_quiescent. Qed.
 Print Assumptions C12_socket_hygiene_quiescent.
+
+Theorem C12_handed_socket_has_owner : forall l s ev, run init l = Some (s, ev) ->
+  forall i, nth_error (socks s) i = Some HandedOver \/ nth_error (socks s) i = Some (HandedClosed 1) ->
+  exists c o, nth_error (conns s) c = Some o /\ csock o = i.
+Proof. exact handed_has_owner. Qed.
+Print Assumptions C12_handed_socket_has_owner.
 
 Theorem C12_connection_owns_its_socket : forall l s ev, run init l = Some (s, ev) ->
   forall c o, nth_error (conns s) c = Some o ->
@@ -85,12 +101,13 @@ Proof. exact step_safe. Qed.
 Print Assumptions C12_step_safe.
 
 (* ... and leaves nothing behind: once the functor queue and the timer queue have drained and the user holds no
-   connection, the Connector is gone, every connection object is destroyed and has closed its descriptor, no socket is open *)
+   connection, the Connector is gone, every connection object is destroyed and has closed its descriptor, and EVERY socket
+   ever created has been closed exactly once (by the connector, or by the connection it was handed to) *)
 Theorem C12_destroy_no_leak : forall s, reachable s ->
   alive s = false -> pending s = [] -> timers s = [] -> (forall c o, nth_error (conns s) c = Some o -> cuser o = 0%nat) ->
   k_dead s = true /\ k_chan s = None /\ connection s = None /\
   (forall c o, nth_error (conns s) c = Some o -> calive o = false /\ nth_error (socks s) (csock o) = Some (HandedClosed 1)) /\
-  (forall i x, nth_error (socks s) i = Some x -> x <> Open).
+  (forall i x, nth_error (socks s) i = Some x -> x = Closed 1 \/ x = HandedClosed 1).
 Proof. exact destroyed_quiescent. Qed.
 Print Assumptions C12_destroy_no_leak.
 
